@@ -11,9 +11,10 @@ def CursorOK : List Effect → Bool → Prop
   | .sendCursorPos _ _ :: rest, w => w = true ∧ CursorOK rest false
   | _ :: rest, w => CursorOK rest w
 
-/-- The four capacity-1 reply sends never block, the clipboard hand-off has a time-out. -/
+/-- The five buffered reply sends never block, the clipboard hand-off has a time-out. -/
 def Kinds.safe (k : Kinds) : Prop :=
-  k.sizeDone ≠ .blocking ∧ k.color ≠ .blocking ∧ k.fg ≠ .blocking ∧ k.bg ≠ .blocking ∧ k.clipboard = .timeout
+  k.cursorPos ≠ .blocking ∧ k.sizeDone ≠ .blocking ∧ k.color ≠ .blocking ∧ k.fg ≠ .blocking ∧ k.bg ≠ .blocking ∧
+  k.clipboard = .timeout
 
 theorem send1_some (k : SendKind) (hk : k ≠ .blocking) (n : Nat) : ∃ b, send1 k n = some b := by
   unfold send1
@@ -39,22 +40,22 @@ theorem run_append (p : Params) : ∀ (ls1 ls2 : List Label) (a b : Sys),
           simp only [hn] at h ⊢
           exact run_append p t ls2 s'' b h
 
-/-- Progress: from any state whose queue respects its capacity and whose pending cursor hand-off
-(if any) still has its requester, internal labels alone bring the goroutine back to its `select`. -/
+/-- Progress: from any state whose queue respects its capacity, internal labels alone bring the
+goroutine back to its `select` — whatever the requesters do or have done. -/
 theorem settle (p : Params) (hq : 0 < p.qcap) (hk : Kinds.safe p.kinds) :
-    ∀ (pend : List Effect) (s : Sys), s.pend = pend → s.queue.length ≤ p.qcap → CursorOK pend s.cursorWaiting →
+    ∀ (pend : List Effect) (s : Sys), s.pend = pend → s.queue.length ≤ p.qcap →
       ∃ ls s', (∀ l ∈ ls, l.internal = true) ∧ run p s ls = some s' ∧ s'.pend = [] := by
   intro pend
   induction pend with
-  | nil => intro s hp _ _; exact ⟨[], s, by simp, rfl, hp⟩
+  | nil => intro s hp _; exact ⟨[], s, by simp, rfl, hp⟩
   | cons e rest ih =>
-    intro s hp hql hc
-    obtain ⟨hsd, hco, hfg, hbg, hcl⟩ := hk
+    intro s hp hql
+    obtain ⟨hcp, hsd, hco, hfg, hbg, hcl⟩ := hk
     -- it suffices to make one internal move (or two) to a state with `pend = rest`
     suffices h : ∃ ls1 s1, (∀ l ∈ ls1, l.internal = true) ∧ run p s ls1 = some s1 ∧ s1.pend = rest ∧
-        s1.queue.length ≤ p.qcap ∧ CursorOK rest s1.cursorWaiting by
-      obtain ⟨ls1, s1, hi1, hr1, hp1, hq1, hc1⟩ := h
-      obtain ⟨ls2, s2, hi2, hr2, hp2⟩ := ih s1 hp1 hq1 hc1
+        s1.queue.length ≤ p.qcap by
+      obtain ⟨ls1, s1, hi1, hr1, hp1, hq1⟩ := h
+      obtain ⟨ls2, s2, hi2, hr2, hp2⟩ := ih s1 hp1 hq1
       refine ⟨ls1 ++ ls2, s2, ?_, ?_, hp2⟩
       · intro l hl
         rcases List.mem_append.mp hl with h | h
@@ -64,87 +65,84 @@ theorem settle (p : Params) (hq : 0 < p.qcap) (hk : Kinds.safe p.kinds) :
     cases e with
     | postB ev =>
       by_cases hlt : s.queue.length < p.qcap
-      · refine ⟨[.step], { s with pend := rest, queue := s.queue ++ [ev] }, by simp [Label.internal], ?_, rfl, ?_, ?_⟩
+      · refine ⟨[.step], { s with pend := rest, queue := s.queue ++ [ev] }, by simp [Label.internal], ?_, rfl, ?_⟩
         · simp [run, next, hp, stepEffect, hlt]
         · simp; omega
-        · simpa [CursorOK] using hc
       · -- the application consumes one event first
         have hne : s.queue ≠ [] := by
           intro h; rw [h] at hlt; simp at hlt; omega
         obtain ⟨q0, qt, hqe⟩ := List.exists_cons_of_ne_nil hne
         refine ⟨[.consume, .step],
-          { s with queue := qt ++ [ev], delivered := s.delivered ++ [q0], pend := rest }, by simp [Label.internal], ?_, rfl, ?_, ?_⟩
+          { s with queue := qt ++ [ev], delivered := s.delivered ++ [q0], pend := rest }, by simp [Label.internal], ?_, rfl, ?_⟩
         · have hl : qt.length < p.qcap := by rw [hqe] at hql; simp at hql; omega
           simp [run, next, hp, hqe, stepEffect, hl]
         · rw [hqe] at hql; simp at hql ⊢; omega
-        · simpa [CursorOK] using hc
     | postNB ev =>
       by_cases hlt : s.queue.length < p.qcap
-      · refine ⟨[.step], { s with pend := rest, queue := s.queue ++ [ev] }, by simp [Label.internal], ?_, rfl, ?_, ?_⟩
+      · refine ⟨[.step], { s with pend := rest, queue := s.queue ++ [ev] }, by simp [Label.internal], ?_, rfl, ?_⟩
         · simp [run, next, hp, stepEffect, hlt]
         · simp; omega
-        · simpa [CursorOK] using hc
-      · refine ⟨[.step], { s with pend := rest, dropped := s.dropped + 1 }, by simp [Label.internal], ?_, rfl, hql, ?_⟩
-        · simp [run, next, hp, stepEffect, hlt]
-        · simpa [CursorOK] using hc
+      · refine ⟨[.step], { s with pend := rest, dropped := s.dropped + 1 }, by simp [Label.internal], ?_, rfl, hql⟩
+        simp [run, next, hp, stepEffect, hlt]
     | sendCursorPos r c =>
-      obtain ⟨hw, hrest⟩ := hc
-      refine ⟨[.step], { s with pend := rest, cursorWaiting := false, cursorGot := s.cursorGot ++ [(r, c)] },
-        by simp [Label.internal], ?_, rfl, hql, hrest⟩
-      simp [run, next, hp, stepEffect, hw]
+      by_cases hcap : p.cursorCap = 0
+      · by_cases hw : s.cursorWaiting = true
+        · refine ⟨[.step], { s with pend := rest, cursorWaiting := false, cursorGot := s.cursorGot ++ [(r, c)] },
+            by simp [Label.internal], ?_, rfl, hql⟩
+          simp [run, next, hp, stepEffect, hw, hcap]
+        · refine ⟨[.step], { s with pend := rest }, by simp [Label.internal], ?_, rfl, hql⟩
+          cases hk' : p.kinds.cursorPos <;> simp [run, next, hp, stepEffect, hw, hcap, hk'] <;> exact absurd hk' hcp
+      · obtain ⟨b, hb⟩ := send1_some p.kinds.cursorPos hcp s.cursorCh.length
+        cases b with
+        | true =>
+          refine ⟨[.step], { s with pend := rest, cursorCh := s.cursorCh ++ [(r, c)] }, by simp [Label.internal], ?_, rfl, hql⟩
+          simp [run, next, hp, stepEffect, hb, hcap]
+        | false =>
+          refine ⟨[.step], { s with pend := rest }, by simp [Label.internal], ?_, rfl, hql⟩
+          simp [run, next, hp, stepEffect, hb, hcap]
     | sendSizeDone =>
       obtain ⟨b, hb⟩ := send1_some p.kinds.sizeDone hsd s.sizeDone
       cases b with
       | true =>
-        refine ⟨[.step], { s with pend := rest, sizeDone := s.sizeDone + 1 }, by simp [Label.internal], ?_, rfl, hql, ?_⟩
-        · simp [run, next, hp, stepEffect, hb]
-        · simpa [CursorOK] using hc
+        refine ⟨[.step], { s with pend := rest, sizeDone := s.sizeDone + 1 }, by simp [Label.internal], ?_, rfl, hql⟩
+        simp [run, next, hp, stepEffect, hb]
       | false =>
-        refine ⟨[.step], { s with pend := rest }, by simp [Label.internal], ?_, rfl, hql, ?_⟩
-        · simp [run, next, hp, stepEffect, hb]
-        · simpa [CursorOK] using hc
+        refine ⟨[.step], { s with pend := rest }, by simp [Label.internal], ?_, rfl, hql⟩
+        simp [run, next, hp, stepEffect, hb]
     | sendColor v =>
       obtain ⟨b, hb⟩ := send1_some p.kinds.color hco s.color.length
       cases b with
       | true =>
-        refine ⟨[.step], { s with pend := rest, color := s.color ++ [v] }, by simp [Label.internal], ?_, rfl, hql, ?_⟩
-        · simp [run, next, hp, stepEffect, hb]
-        · simpa [CursorOK] using hc
+        refine ⟨[.step], { s with pend := rest, color := s.color ++ [v] }, by simp [Label.internal], ?_, rfl, hql⟩
+        simp [run, next, hp, stepEffect, hb]
       | false =>
-        refine ⟨[.step], { s with pend := rest }, by simp [Label.internal], ?_, rfl, hql, ?_⟩
-        · simp [run, next, hp, stepEffect, hb]
-        · simpa [CursorOK] using hc
+        refine ⟨[.step], { s with pend := rest }, by simp [Label.internal], ?_, rfl, hql⟩
+        simp [run, next, hp, stepEffect, hb]
     | sendFg v =>
       obtain ⟨b, hb⟩ := send1_some p.kinds.fg hfg s.fg.length
       cases b with
       | true =>
-        refine ⟨[.step], { s with pend := rest, fg := s.fg ++ [v] }, by simp [Label.internal], ?_, rfl, hql, ?_⟩
-        · simp [run, next, hp, stepEffect, hb]
-        · simpa [CursorOK] using hc
+        refine ⟨[.step], { s with pend := rest, fg := s.fg ++ [v] }, by simp [Label.internal], ?_, rfl, hql⟩
+        simp [run, next, hp, stepEffect, hb]
       | false =>
-        refine ⟨[.step], { s with pend := rest }, by simp [Label.internal], ?_, rfl, hql, ?_⟩
-        · simp [run, next, hp, stepEffect, hb]
-        · simpa [CursorOK] using hc
+        refine ⟨[.step], { s with pend := rest }, by simp [Label.internal], ?_, rfl, hql⟩
+        simp [run, next, hp, stepEffect, hb]
     | sendBg v =>
       obtain ⟨b, hb⟩ := send1_some p.kinds.bg hbg s.bg.length
       cases b with
       | true =>
-        refine ⟨[.step], { s with pend := rest, bg := s.bg ++ [v] }, by simp [Label.internal], ?_, rfl, hql, ?_⟩
-        · simp [run, next, hp, stepEffect, hb]
-        · simpa [CursorOK] using hc
+        refine ⟨[.step], { s with pend := rest, bg := s.bg ++ [v] }, by simp [Label.internal], ?_, rfl, hql⟩
+        simp [run, next, hp, stepEffect, hb]
       | false =>
-        refine ⟨[.step], { s with pend := rest }, by simp [Label.internal], ?_, rfl, hql, ?_⟩
-        · simp [run, next, hp, stepEffect, hb]
-        · simpa [CursorOK] using hc
+        refine ⟨[.step], { s with pend := rest }, by simp [Label.internal], ?_, rfl, hql⟩
+        simp [run, next, hp, stepEffect, hb]
     | sendClipboard v =>
       by_cases hw : s.clipWaiting = true
       · refine ⟨[.step], { s with pend := rest, clipWaiting := false, clipGot := s.clipGot ++ [v] },
-          by simp [Label.internal], ?_, rfl, hql, ?_⟩
-        · simp [run, next, hp, stepEffect, hw]
-        · simpa [CursorOK] using hc
-      · refine ⟨[.clipTimeout], { s with pend := rest }, by simp [Label.internal], ?_, rfl, hql, ?_⟩
-        · simp [run, next, hp, hcl]
-        · simpa [CursorOK] using hc
+          by simp [Label.internal], ?_, rfl, hql⟩
+        simp [run, next, hp, stepEffect, hw]
+      · refine ⟨[.clipTimeout], { s with pend := rest }, by simp [Label.internal], ?_, rfl, hql⟩
+        simp [run, next, hp, hcl]
 
 /-! ### the queue never exceeds its capacity -/
 
